@@ -639,11 +639,17 @@ func c29Show(b []byte) string {
 }
 
 func c29Q(v any) string {
+	var out string
 	if s, ok := v.(string); ok {
-		return fmt.Sprintf("%+q", s)
+		out = fmt.Sprintf("%+q", s)
+	} else {
+		b, _ := json.Marshal(v)
+		out = string(b)
 	}
-	b, _ := json.Marshal(v)
-	return string(b)
+	if len(out) > 240 { // display only: the full value is in the witness
+		out = fmt.Sprintf("%s...(%d bytes)...%s", out[:120], len(out), out[len(out)-60:])
+	}
+	return out
 }
 
 func c29Diff(a, b map[string]any) string {
@@ -877,6 +883,215 @@ func c29Plain(b []byte) []byte {
 }
 
 // =====================================================================
+// Leg 1b: size and escaping extremes of every client-controlled field
+// =====================================================================
+
+// c29FillClass is one kind of text a client can put into a key, header, content type ...: Units are
+// repeated/mixed up to an exact byte length. The classes differ in how the three JSON libraries have
+// to write/read them (1..4-byte UTF-8, characters that encoding/json turns into 6-byte \uXXXX escapes,
+// 2-byte escapes, control characters, the two JavaScript line separators).
+type c29FillClass struct {
+	Name  string
+	Units []string
+}
+
+var c29FillClasses = []c29FillClass{
+	{"ascii", []string{"a", "b", "Z", "0", "9", "-", "_", ".", "/", "obj-", "2026/02/01/"}},
+	{"html_escaped", []string{"&", "<", ">"}},
+	{"quote_backslash", []string{`"`, `\`, "/", `\"`, `\u0041`, `\\u0041`, `\n`}},
+	{"control", []string{"\x00", "\x01", "\x08", "\t", "\n", "\x0c", "\r", "\x1b", "\x1f", "\x7f"}},
+	{"line_separators", []string{"\u2028", "\u2029"}},
+	{"two_byte", []string{"\u00e9", "\u00fc", "\u00a0", "\u07ff", "\u0080", "\u043f"}},
+	{"cjk", []string{"\u65e5", "\u672c", "\u8a9e", "\u0800", "\uffef", "\ufffd"}},
+	{"four_byte", []string{"\U0001F600", "\U00010000", "\U0010FFFF", "\U0001F469\u200d\U0001F467"}},
+	{"tracestate", []string{"vendor=opaque-value-0123456789abcdef,", "rojo=00f067aa0ba902b7,", "congo=t61rcWkgMzE,"}},
+	{"mime_params", []string{"; charset=utf-8", "; boundary=\"----=_Part_0123456789\"", "; profile=\"https://example.org/a?b=1&c=<2>\"", "application/vnd.example+json"}},
+	{"mixed", nil}, // every unit above plus the small-string atoms
+}
+
+func init() {
+	var all []string
+	for _, c := range c29FillClasses {
+		all = append(all, c.Units...)
+	}
+	all = append(all, c29Atoms...)
+	c29FillClasses[len(c29FillClasses)-1].Units = all
+}
+
+// c29Fill returns exactly size bytes of valid UTF-8 drawn from the class (homogeneous: one unit repeated;
+// otherwise a PRNG mix), padded with 'x' where the next unit would not fit.
+func c29Fill(rng *rand.Rand, cls c29FillClass, size int) string {
+	var b strings.Builder
+	b.Grow(size)
+	one := ""
+	if rng.Intn(3) == 0 {
+		one = cls.Units[rng.Intn(len(cls.Units))]
+	}
+	for b.Len() < size {
+		u := one
+		if u == "" {
+			u = cls.Units[rng.Intn(len(cls.Units))]
+		}
+		if b.Len()+len(u) > size {
+			b.WriteByte('x')
+			continue
+		}
+		b.WriteString(u)
+	}
+	return b.String()
+}
+
+// c29ExtSize draws a field length in bytes: log-uniform over 16 B .. 64 KiB, a quarter of the draws on a
+// power of two +-1 (64 B .. 64 KiB: 255/256/257, 1023/1024/1025, 4095/4096/4097 ...), one in sixteen
+// beyond 64 KiB (log-uniform up to 2^bigExp).
+func c29ExtSize(rng *rand.Rand, bigExp int) int {
+	switch x := rng.Intn(16); {
+	case x == 0:
+		return int(65536 * c29Pow2(rng.Float64()*float64(bigExp-16)))
+	case x < 5:
+		return 1<<uint(6+rng.Intn(11)) + rng.Intn(3) - 1
+	default:
+		return int(16 * c29Pow2(12*rng.Float64())) // 16 .. 65535
+	}
+}
+
+// c29Pow2 is a piecewise-linear 2^e for e >= 0 (no math import needed; only the spread matters).
+func c29Pow2(e float64) float64 {
+	n := 1.0
+	for ; e >= 1; e-- {
+		n *= 2
+	}
+	return n * (1 + e)
+}
+
+var c29ExtFields = []string{"key", "bucket", "content_type", "header_value", "header_many", "header_key", "proxy_id", "checksum_alg", "created_at", "checksum", "sha256"}
+
+// c29SetExtreme overwrites one client-controlled field of e with size bytes of the class.
+func c29SetExtreme(rng *rand.Rand, e *lfs.Envelope, field string, cls c29FillClass, size int) {
+	switch field {
+	case "key":
+		e.Key = c29Fill(rng, cls, size)
+	case "bucket":
+		e.Bucket = c29Fill(rng, cls, size)
+	case "content_type":
+		e.ContentType = c29Fill(rng, cls, size)
+	case "proxy_id":
+		e.ProxyID = c29Fill(rng, cls, size)
+	case "checksum_alg":
+		e.ChecksumAlg = c29Fill(rng, cls, size)
+	case "created_at":
+		e.CreatedAt = c29Fill(rng, cls, size)
+	case "checksum":
+		e.Checksum = c29Fill(rng, cls, size)
+	case "sha256":
+		e.SHA256 = c29Fill(rng, cls, size)
+	case "header_value", "header_key", "header_many":
+		if e.OriginalHeaders == nil {
+			e.OriginalHeaders = map[string]string{}
+		}
+		switch field {
+		case "header_value":
+			k := []string{"tracestate", "content-type", "correlation-id", "x-request-id", "traceparent"}[rng.Intn(5)]
+			e.OriginalHeaders[k] = c29Fill(rng, cls, size)
+		case "header_key":
+			e.OriginalHeaders[c29Fill(rng, cls, size)] = "v"
+		default: // many small entries adding up to about size bytes
+			for i := 0; i*48 < size; i++ {
+				e.OriginalHeaders[fmt.Sprintf("h%d-%s", i, c29Fill(rng, cls, 8))] = c29Fill(rng, cls, 32)
+			}
+		}
+	}
+}
+
+// c29GenExtreme draws a field assignment whose size/escaping is extreme in one or two fields (one case in
+// twenty: in every field, at a smaller size each). The rest is either what the proxy usually writes or a
+// c29GenEnvelope draw.
+func c29GenExtreme(rng *rand.Rand, bigExp int) (lfs.Envelope, string) {
+	var e lfs.Envelope
+	if rng.Intn(2) == 0 {
+		e = lfs.Envelope{Version: 1, Bucket: "kafscale-lfs", Key: "default/topic/lfs/2026/02/01/obj-" + c29Hex(rng, 16), Size: rng.Int63n(1 << 31),
+			SHA256: c29Hex(rng, 32), ChecksumAlg: "sha256", ContentType: "application/octet-stream", CreatedAt: "2026-02-01T12:00:00Z", ProxyID: "lfs-proxy-0"}
+		e.Checksum = e.SHA256
+	} else {
+		e = c29GenEnvelope(rng)
+	}
+	var desc []string
+	set := func(field string, size int) {
+		cls := c29FillClasses[rng.Intn(len(c29FillClasses))]
+		c29SetExtreme(rng, &e, field, cls, size)
+		desc = append(desc, fmt.Sprintf("%s/%s/%d", field, cls.Name, size))
+	}
+	switch x := rng.Intn(20); {
+	case x == 0:
+		for _, f := range c29ExtFields {
+			set(f, 1+c29ExtSize(rng, 17)/8)
+		}
+	case x < 6:
+		set(c29ExtFields[rng.Intn(len(c29ExtFields))], c29ExtSize(rng, bigExp))
+		set(c29ExtFields[rng.Intn(len(c29ExtFields))], c29ExtSize(rng, 17))
+	default:
+		set(c29ExtFields[rng.Intn(len(c29ExtFields))], c29ExtSize(rng, bigExp))
+	}
+	return e, strings.Join(desc, " + ")
+}
+
+func c29CountSize(r *verifkit.Run, prefix string, n int) {
+	for _, lim := range []int{1, 4, 16, 64} {
+		if n > lim<<10 {
+			r.Count(fmt.Sprintf("%s_over_%dKiB", prefix, lim), 1)
+		}
+	}
+}
+
+func c29Head(b []byte, n int) string {
+	if len(b) > n {
+		return string(bytes.ToValidUTF8(b[:n], nil)) + fmt.Sprintf("...(%d bytes)", len(b))
+	}
+	return string(b)
+}
+
+const c29RuleExtremes = "[extremes] PRNG field assignments whose SIZE and ESCAPING are extreme in the fields a client controls: one or two (1 case in 20: all) of key, bucket, content_type, one original_headers value (tracestate/content-type/...), many original_headers entries, an original_headers key, proxy_id, checksum_alg, created_at, checksum, sha256 are set to exactly L bytes, L log-uniform over 16 B..64 KiB, a quarter of the draws on 2^k-1/2^k/2^k+1 for k=6..16 (so exact 1024-byte keys), one in sixteen between 64 KiB and 256 KiB (thorough: 512 KiB), filled from one of 11 text classes (plain ASCII; & < > which encoding/json writes as 6-byte escapes; quotes and backslashes; control characters; U+2028/U+2029; 2-byte, CJK and 4-byte UTF-8; W3C tracestate lists; MIME parameter lists; a mix of everything), either one unit repeated or a PRNG mix; the other fields are what the proxy usually writes or a [generated] draw. Encoded envelopes range from ~300 bytes to several hundred KiB. Same oracle as [generated]: Go Decode(Encode(e)) = e, IsLfsEnvelope true, re-encode identity, python/node recognise the bytes and decode the same fields; non-trivial = encoded envelope longer than 1 KiB"
+
+func c29PhaseExtremes(r *verifkit.Run) []c29Item {
+	n := r.N(360, 1500)
+	bigExp := r.N(18, 19)
+	var items []c29Item
+	for ci := 0; ci < n; ci++ {
+		rng := r.Rand(3000000 + ci)
+		e, desc := c29GenExtreme(rng, bigExp)
+		enc, err := lfs.EncodeEnvelope(e)
+		if err != nil {
+			r.Count("encode_refused", 1)
+			r.Case(verifkit.Hash("refused-x", ci), false)
+			continue
+		}
+		ec := e
+		name := fmt.Sprintf("gen-x-%d", ci)
+		c29CheckGoRoundTrip(r, name, &ec, enc)
+		r.Count("extreme_envelopes", 1)
+		c29CountSize(r, "extreme_envelopes", len(enc))
+		if len(enc) != len(c29Plain(enc)) {
+			r.Count("extreme_envelopes_with_escapes_or_non_ascii", 1)
+		}
+		for _, d := range strings.Split(desc, " + ") {
+			p := strings.Split(d, "/")
+			r.Seen("extreme_field_x_text_class", p[0]+"/"+p[1])
+		}
+		r.Case(verifkit.Hash(string(enc)), len(enc) > 1024)
+		items = append(items, c29Item{Name: name, Bytes: enc, Real: true, Expected: &ec})
+		if ci < 2 {
+			r.Sample(map[string]any{"extreme": desc, "encoded_len": len(enc), "encoded_head": c29Head(enc, 300)})
+		}
+	}
+	r.Floor("extreme_envelopes_over_1KiB", int64(n/3))
+	r.Floor("extreme_envelopes_over_4KiB", int64(n/5))
+	r.Floor("extreme_envelopes_over_16KiB", int64(n/12))
+	r.Floor("extreme_envelopes_over_64KiB", int64(n/40))
+	r.Floor("extreme_envelopes_with_escapes_or_non_ascii", int64(n/3))
+	return items
+}
+
+// =====================================================================
 // Leg 2: envelopes made by the proxy's real producers
 // =====================================================================
 
@@ -1050,14 +1265,23 @@ func c29Digest(alg string, b []byte) string {
 
 const c29RuleProxy = "[proxy] envelopes produced by the proxy itself: (a) rewriteProduceRecords on generated Kafka produce requests (records flagged LFS_BLOB with generated payloads, unicode/long topic names, allow-listed and other headers with unicode values, LFS_BLOB_ALG in {absent, sha256, md5, crc32, none}, module bucket/namespace/proxy-id with unicode), value read back from the rewritten batch; (b) handleHTTPProduce with a loopback Kafka stand-in that records the produce frame (value read from the frame) plus the JSON the handler returns. Oracle: each produced value is recognised by IsLfsEnvelope, DecodeEnvelope succeeds and yields bucket = configured bucket, key = the key the object was stored under, size = payload length, sha256 = SHA-256(payload), proxy_id/content_type/original_headers as assigned, re-encoding the decoded fields reproduces the value byte for byte; python/node recognise it and decode the same fields; non-trivial = produced envelope carrying non-ASCII or escaped text or original_headers"
 
-func c29PhaseProxy(t *testing.T, r *verifkit.Run) []c29Item {
+func c29PhaseProxy(t *testing.T, r *verifkit.Run, longOnly bool) []c29Item {
 	ctx := context.Background()
 	var items []c29Item
 	topicsAtoms := []string{"orders", "t", "日本語", "topic-with-a-very-long-name-that-goes-beyond-fifty-bytes-easily-0123456789", "a/b", "q\"uote", "sp ace", "é", "😀", "x.y_z-1"}
 	hdrKeys := []string{"content-type", "Content-Type", "content-encoding", "correlation-id", "message-id", "x-correlation-id", "X-Request-ID", "traceparent", "tracestate", "authorization", "x-secret", "custom"}
 	n := r.N(150, 4000)
-	for ci := 0; ci < n; ci++ {
+	nl := r.N(60, 600) // further cases whose client-controlled inputs (record headers, topic) are long / escape-heavy: leg "extremes"
+	first, last := 0, n
+	if longOnly {
+		first, last = n, n+nl
+	}
+	for ci := first; ci < last; ci++ {
 		rng := r.Rand(500000 + ci)
+		long := ci >= n
+		if long {
+			rng = r.Rand(600000 + ci - n)
+		}
 		fs := &c29S3{objects: map[string][]byte{}}
 		bucket := []string{"verif-bucket", "b", "bücket", "bucket-" + strings.Repeat("x", 56)}[rng.Intn(4)]
 		ns := []string{"ns", "", "tenant/一", "  spaced  ", strings.Repeat("n", 60)}[rng.Intn(5)]
@@ -1065,6 +1289,9 @@ func c29PhaseProxy(t *testing.T, r *verifkit.Run) []c29Item {
 		defAlg := []string{"sha256", "md5", "crc32", "none", ""}[rng.Intn(5)]
 		m := c29Module(fs, bucket, ns, proxyID, defAlg)
 		topic := topicsAtoms[rng.Intn(len(topicsAtoms))]
+		if long && rng.Intn(2) == 0 {
+			topic = c29Fill(rng, c29FillClasses[rng.Intn(len(c29FillClasses))], 100+rng.Intn(150)) // Kafka caps topic names at 249
+		}
 		nrec := 1 + rng.Intn(3)
 		type sent struct {
 			payload []byte
@@ -1080,6 +1307,13 @@ func c29PhaseProxy(t *testing.T, r *verifkit.Run) []c29Item {
 			var hs []kmsg.Header
 			for h := rng.Intn(5); h > 0; h-- {
 				hs = append(hs, kmsg.Header{Key: hdrKeys[rng.Intn(len(hdrKeys))], Value: []byte(c29Str(rng, 0))})
+			}
+			if long { // 1-3 allow-listed headers of 256 B .. 32 KiB (a tracestate list, a long content type, an opaque correlation id ...)
+				for h := 1 + rng.Intn(3); h > 0; h-- {
+					cls := c29FillClasses[rng.Intn(len(c29FillClasses))]
+					hs = append(hs, kmsg.Header{Key: hdrKeys[rng.Intn(9)], Value: []byte(c29Fill(rng, cls, int(256*c29Pow2(7*rng.Float64()))))})
+					r.Seen("rewrite_long_header_text_class", cls.Name)
+				}
 			}
 			alg := []string{"", "", "sha256", "md5", "crc32", "none", "MD5"}[rng.Intn(7)]
 			eff := strings.ToLower(alg)
@@ -1144,12 +1378,13 @@ func c29PhaseProxy(t *testing.T, r *verifkit.Run) []c29Item {
 			got, _ := lfs.DecodeEnvelope(v)
 			hostile := len(got.OriginalHeaders) > 0 || len(v) != len(c29Plain(v))
 			r.Count("envelopes_from_rewrite", 1)
+			c29CountSize(r, "envelopes_from_rewrite", len(v))
 			if len(got.OriginalHeaders) > 0 {
 				r.Count("envelopes_with_original_headers", 1)
 			}
 			r.Case(verifkit.Hash(string(v)), hostile)
-			if ci < 1 && k == 0 {
-				r.Sample(map[string]any{"producer": "rewriteProduceRecords", "topic": topic, "envelope": string(v)})
+			if ci == first && k == 0 {
+				r.Sample(map[string]any{"producer": "rewriteProduceRecords", "topic": topic, "envelope": c29Head(v, 600)})
 			}
 		}
 	}
@@ -1158,8 +1393,17 @@ func c29PhaseProxy(t *testing.T, r *verifkit.Run) []c29Item {
 	be := c29StartBackend(t)
 	defer be.ln.Close()
 	nh := r.N(40, 600)
-	for ci := 0; ci < nh; ci++ {
+	nhl := r.N(40, 300) // further cases with a long / escape-heavy Content-Type and a 249-byte topic: leg "extremes"
+	first, last = 0, nh
+	if longOnly {
+		first, last = nh, nh+nhl
+	}
+	for ci := first; ci < last; ci++ {
 		rng := r.Rand(1000000 + ci)
+		long := ci >= nh
+		if long {
+			rng = r.Rand(1100000 + ci - nh)
+		}
 		fs := &c29S3{objects: map[string][]byte{}}
 		bucket := []string{"verif-bucket", "bücket"}[rng.Intn(2)]
 		proxyID := []string{"proxy-1", "прокси", ""}[rng.Intn(3)]
@@ -1173,6 +1417,15 @@ func c29PhaseProxy(t *testing.T, r *verifkit.Run) []c29Item {
 		topic := []string{"orders", "x.y_z-1", strings.Repeat("t", 200)}[rng.Intn(3)]
 		hreq.Header.Set(lfsHeaderTopic, topic)
 		ct := []string{"", "application/octet-stream", "text/plain; charset=utf-8", "x/" + c29Str(rng, 0)}[rng.Intn(4)]
+		if long {
+			cls := c29FillClasses[rng.Intn(len(c29FillClasses))]
+			ct = "x/" + c29Fill(rng, cls, int(1024*c29Pow2(5*rng.Float64()))) // 1 .. 32 KiB
+			r.Seen("http_long_content_type_text_class", cls.Name)
+			if rng.Intn(2) == 0 {
+				topic = strings.Repeat("a.b_c-", 42)[:249]
+				hreq.Header.Set(lfsHeaderTopic, topic)
+			}
+		}
 		if ct != "" {
 			hreq.Header["Content-Type"] = []string{ct}
 		}
@@ -1225,10 +1478,19 @@ func c29PhaseProxy(t *testing.T, r *verifkit.Run) []c29Item {
 		c29CheckProduced(r, name+"-response", want, body)
 		items = append(items, c29Item{Name: name + "-response", Bytes: body, Real: true})
 		r.Count("envelopes_from_http_produce", 1)
+		c29CountSize(r, "envelopes_from_http_produce", len(vals[0]))
 		r.Case(verifkit.Hash(string(vals[0])), true)
-		if ci < 1 {
-			r.Sample(map[string]any{"producer": "handleHTTPProduce", "topic": topic, "envelope": string(vals[0])})
+		if ci == first {
+			r.Sample(map[string]any{"producer": "handleHTTPProduce", "topic": topic, "envelope": c29Head(vals[0], 600)})
 		}
+	}
+	if longOnly {
+		r.Floor("envelopes_from_rewrite", 40)
+		r.Floor("envelopes_from_rewrite_over_4KiB", 15)
+		r.Floor("envelopes_from_rewrite_over_16KiB", 5)
+		r.Floor("envelopes_from_http_produce", 20)
+		r.Floor("envelopes_from_http_produce_over_4KiB", 8)
+		return items
 	}
 	r.Floor("envelopes_from_rewrite", 100)
 	r.Floor("envelopes_with_original_headers", 20)
@@ -1454,6 +1716,59 @@ func c29PhaseAgreement(r *verifkit.Run) []c29Item {
 	return items
 }
 
+// c29PhaseBigAgreement: the near-miss mutations applied to LARGE envelopes (a verdict must not depend on
+// how much follows the 50-byte prefix).
+func c29PhaseBigAgreement(r *verifkit.Run) []c29Item {
+	var items []c29Item
+	nb := r.N(150, 1500)
+	for ci := 0; ci < nb; ci++ {
+		rng := r.Rand(2500000 + ci)
+		e, _ := c29GenExtreme(rng, 17)
+		base, err := lfs.EncodeEnvelope(e)
+		if err != nil {
+			continue
+		}
+		if len(base) > 1<<15 && rng.Intn(4) != 0 { // keep the volume down: most of the very large ones are cut (which is a mutation too)
+			base = base[:1<<15]
+		}
+		b := base
+		if rng.Intn(8) != 0 {
+			b = c29Mutate(rng, base)
+		}
+		if len(b) > 4096 {
+			r.Count("large_inputs_over_4KiB", 1)
+		}
+		items = append(items, c29Item{Name: fmt.Sprintf("mut-big-%d", ci), Bytes: b})
+	}
+	r.Floor("large_inputs_over_4KiB", int64(nb/10))
+	for _, it := range items {
+		near := bytes.Contains(it.Bytes, []byte("kfs_lfs")) || (len(it.Bytes) > 0 && it.Bytes[0] == '{')
+		r.Case(verifkit.Hash(hex.EncodeToString(it.Bytes)), near)
+	}
+	return items
+}
+
+// c29Replay judges the one witness given through VERIF_REPLAY ({"replay": {"hex": ...}} as written by the
+// driver) with the three libraries; false when no replay was requested.
+func c29Replay(t *testing.T, r *verifkit.Run, dir string) bool {
+	rp := verifkit.Replay()
+	if rp == nil {
+		return false
+	}
+	inner, _ := rp["replay"].(map[string]any)
+	hx, _ := inner["hex"].(string)
+	b, err := hex.DecodeString(hx)
+	if err != nil || inner == nil {
+		t.Fatalf("VERIF_REPLAY: no replay.hex in witness")
+	}
+	it := c29Item{Name: "replay", Bytes: b, Real: strings.HasPrefix(fmt.Sprint(inner["name"]), "gen-") || strings.HasPrefix(fmt.Sprint(inner["name"]), "rewrite-") || strings.HasPrefix(fmt.Sprint(inner["name"]), "http-")}
+	r.Case("replay", true)
+	r.Case("replay-2", true)
+	r.Sample(map[string]any{"replayed": c29Head([]byte(hx), 400)})
+	c29Cross(t, r, dir, []c29Item{it})
+	return true
+}
+
 func TestVerifC29(t *testing.T) {
 	r := verifkit.Start(t, "C29", "envelopes")
 	defer r.Finish(c29RuleRoundTrip+" ;; "+c29RuleProxy+" ;; "+c29RuleAgreement,
@@ -1463,19 +1778,7 @@ func TestVerifC29(t *testing.T) {
 		"js: envelope.ts is run after conservative type erasure (interface block, signature annotations, `as T`); a file node rejects is inconclusive, never a violation",
 		"a language whose runner cannot start makes the run inconclusive",
 		"the multipart upload-complete producer (third call site of EncodeEnvelope, same struct) is not driven")
-	if rp := verifkit.Replay(); rp != nil {
-		// replay one witness: {"replay": {"hex": ...}} as written by the driver
-		inner, _ := rp["replay"].(map[string]any)
-		hx, _ := inner["hex"].(string)
-		b, err := hex.DecodeString(hx)
-		if err != nil || inner == nil {
-			t.Fatalf("VERIF_REPLAY: no replay.hex in witness")
-		}
-		it := c29Item{Name: "replay", Bytes: b, Real: strings.HasPrefix(fmt.Sprint(inner["name"]), "gen-") || strings.HasPrefix(fmt.Sprint(inner["name"]), "rewrite-") || strings.HasPrefix(fmt.Sprint(inner["name"]), "http-")}
-		r.Case("replay", true)
-		r.Case("replay-2", true)
-		r.Sample(map[string]any{"replayed": hx})
-		c29Cross(t, r, "replay", []c29Item{it})
+	if c29Replay(t, r, "replay") {
 		return
 	}
 	var items []c29Item
@@ -1484,7 +1787,7 @@ func TestVerifC29(t *testing.T) {
 	items = append(items, c29PhaseRoundTrip(r)...)
 	phase["generated"] = time.Since(t0).Seconds()
 	t1 := time.Now()
-	items = append(items, c29PhaseProxy(t, r)...)
+	items = append(items, c29PhaseProxy(t, r, false)...)
 	phase["proxy"] = time.Since(t1).Seconds()
 	t1 = time.Now()
 	items = append(items, c29PhaseAgreement(r)...)
@@ -1497,4 +1800,50 @@ func TestVerifC29(t *testing.T) {
 	r.Floor("decoded_equal_go_js", 200)
 	r.Floor("all_three_say_envelope", 100)
 	r.Floor("all_three_say_not_envelope", 100)
+}
+
+// =====================================================================
+// Leg "extremes": size and escaping extremes of the client-controlled fields, through the codec, through
+// the proxy's producers, and as near-misses. Runs without the race detector (it moves tens of MiB of
+// text through three JSON libraries; nothing in it is concurrent apart from the loopback stand-in).
+// =====================================================================
+
+const c29RuleExtremesProxy = "[extremes/proxy] the proxy's own producers with long client input: rewriteProduceRecords on produce requests whose LFS_BLOB records carry 1-3 allow-listed headers (content-type, content-encoding, correlation-id, message-id, x-correlation-id, X-Request-ID, traceparent, tracestate) of 256 B..32 KiB each from the same text classes and, half of the time, a 100-249 byte topic from those classes (produced envelopes reach > 64 KiB); handleHTTPProduce with a Content-Type of 1..32 KiB from those classes and, half of the time, a 249-byte topic. Same oracle as [proxy] of leg envelopes (recognised, decodes to bucket/key/size/sha256/content_type/original_headers/proxy_id the producer assigned, re-encode identity, python/node agree)"
+
+const c29RuleExtremesAgreement = "[extremes/agreement] the near-miss mutations of leg envelopes (insert/delete/overwrite/truncate/pad/prepend in the first 64 bytes) applied to [extremes] envelopes of up to 128 KiB (cut at 32 KiB three times out of four; one in eight left intact): the three is-envelope verdicts must be equal whatever follows the 50-byte prefix"
+
+func TestVerifC29Extremes(t *testing.T) {
+	r := verifkit.Start(t, "C29", "extremes")
+	defer r.Finish(c29RuleExtremes+" ;; "+c29RuleExtremesProxy+" ;; "+c29RuleExtremesAgreement,
+		"field strings are valid UTF-8 (JSON cannot carry other strings; Go's encoder would substitute U+FFFD)",
+		"no field length is outside the statement's domain: the statement quantifies over every field assignment 'including unicode and long keys' and names no limit; S3's own 1024-byte key limit is reached exactly by the 2^10 draws, longer keys and the other fields (headers, content type) are limited only by the Kafka message size, which every generated envelope stays far below",
+		"python/js runners, type erasure and optional-field normalisation exactly as in leg envelopes",
+		"a language whose runner cannot start makes the run inconclusive")
+	if c29Replay(t, r, "replay-extremes") {
+		return
+	}
+	var items []c29Item
+	phase := map[string]float64{}
+	t1 := time.Now()
+	items = append(items, c29PhaseExtremes(r)...)
+	phase["extremes"] = time.Since(t1).Seconds()
+	t1 = time.Now()
+	items = append(items, c29PhaseProxy(t, r, true)...)
+	phase["proxy_long"] = time.Since(t1).Seconds()
+	t1 = time.Now()
+	items = append(items, c29PhaseBigAgreement(r)...)
+	phase["agreement_inputs"] = time.Since(t1).Seconds()
+	t1 = time.Now()
+	var total int64
+	for _, it := range items {
+		total += int64(len(it.Bytes))
+	}
+	r.Count("input_bytes_total", total)
+	c29Cross(t, r, "extremes", items)
+	phase["three_libraries"] = time.Since(t1).Seconds()
+	r.Note("phase_wall_seconds", phase) // information only, no oracle reads it
+	r.Floor("decoded_equal_go_python", 300)
+	r.Floor("decoded_equal_go_js", 300)
+	r.Floor("all_three_say_envelope", 300)
+	r.Floor("all_three_say_not_envelope", 20)
 }
